@@ -3,6 +3,9 @@
 Streams (real pytezos vs the Lean mirror):
   pack      v.pack(), v.pack(legacy=True) and the PACK instruction on values of packable types
   unpack    T.unpack(b) and the UNPACK instruction on the packed bytes and on byte-level mutants of them
+  ill-typed T.unpack(b) and UNPACK on well-formed binary Micheline that is not a value of the type (annotated data constructors,
+            three or more arguments over a right component that is not a pair class, strings with control characters) and on
+            look-alike controls that are; oracle: None (Some for the controls)
 Property oracles on the real code:
   * PACK == an independent Python packer written from the Tezos serialisation rules (annotation-blind right-spine
     combs: Pair a b / Pair a (Pair b c) / sequence from 4 components; zarith ints; optimized domain encodings),
@@ -15,7 +18,7 @@ import json
 from harness import gen_c11 as g
 from harness import mich
 from harness.props import c05 as c05mod
-from harness.props.c11 import canon_tokens, comb_types, comb_value, pair_order_is_lexicographic, children
+from harness.props.c11 import canon_tokens, comb_types, comb_value, pair_order_is_lexicographic, children, malformed_cases
 from translator import extract
 
 PROP = 'C04'
@@ -475,6 +478,59 @@ def run(ctx):
                     ctx.mismatch('unpack', {'type': t, 'bytes': b.hex(), 'kind': kind}, ins[:4000], model[3 * i][:4000])
                 if model[3 * i + 1] != raw:
                     ctx.mismatch('unpack-raw', {'type': t, 'bytes': b.hex(), 'kind': kind}, raw[:4000], model[3 * i + 1][:4000])
+
+    # ---------------------------------------------------------------- ill-typed stream
+    # well-formed binary Micheline that is not a value of the type (C11's malformed-value cases, forged with the library):
+    # annotated data constructors, three or more arguments over a right component that is not a pair class, strings with
+    # control characters.  Oracle: the protocol's UNPACK gives None (Some for the look-alike controls); never an exception.
+    from pytezos.michelson.forge import forge_micheline
+    rows = []
+    for grp, key, t, mm, accepted in malformed_cases(ctx, [], []):
+        tj = json.dumps(t)
+        if any(x in tj for x in ('"ticket"', '"big_map"', '"lambda"')) or '"annots": [""]' in json.dumps(mm):
+            continue        # not packable / abstract in the model / an empty annotation does not survive the binary form
+        try:
+            b = b'\x05' + forge_micheline(mm)
+        except Exception:
+            continue
+        rows.append((grp, key, t, mm, accepted, b))
+    lines, meta = [], []
+    for grp, key, t, mm, accepted, b in rows:
+        cls = g.type_class(t)
+        try:
+            raw = 'ok ' + ' '.join(g.obj_tokens(cls.unpack(b)))
+        except Exception:
+            raw = 'err'
+        ti = g.nofield(t)
+        try:
+            res = repl.run({'prim': 'UNPACK', 'args': [ti]}, BytesType(b))
+            if isinstance(res, OptionType):
+                ins = 'none' if res.item is None else 'some ' + ' '.join(g.obj_tokens(res.item))
+            else:
+                ins = 'not-option'
+        except Exception:
+            ins = 'raise'
+        lines += [f'unpack {mich.to_line(ti)} | {b.hex()}', f'unpackraw {mich.to_line(t)} | {b.hex()}']
+        meta.append((grp, key, t, mm, accepted, b, raw, ins))
+    model = ctx.model(lines)
+    reported = set()
+    for i, (grp, key, t, mm, accepted, b, raw, ins) in enumerate(meta):
+        ctx.case({'stream': 'ill-typed', 'group': grp, 'type': t, 'micheline': json.dumps(mm)[:200]}, nontrivial=True)
+        ctx.count('ill_typed_group', grp)
+        ctx.count('ill_typed_verdict', ins.split(' ')[0])
+        want = 'some' if accepted else 'none'
+        if ins.split(' ')[0] != want:
+            k = ('unpack-instruction-raises:ill-typed' if ins in ('raise', 'not-option') else f'unpack-ill-typed:{key}')
+            if k not in reported:
+                reported.add(k)
+                ctx.violation(k, f'UNPACK {json.dumps(t)[:100]} on {b.hex()[:80]} (= {json.dumps(mm)[:120]}) gives {ins[:80]}, the protocol gives {want}',
+                              {'type': t, 'bytes': b.hex(), 'micheline': mm, 'expected': want, 'observed': ins[:300]})
+            continue
+        if model is not None:
+            if model[2 * i] != ins:
+                ctx.mismatch('unpack-ill-typed', {'type': t, 'bytes': b.hex(), 'group': grp}, ins[:400], model[2 * i][:400])
+            if model[2 * i + 1] != raw:
+                ctx.mismatch('unpack-raw-ill-typed', {'type': t, 'bytes': b.hex(), 'group': grp}, raw[:400], model[2 * i + 1][:400])
 
 
 def _prim_of_tag():
